@@ -447,3 +447,445 @@ proof fn lemma_all_finished_after_write(pre: Seq<NodeInfo>, post: Seq<NodeInfo>,
         if i != n { assert(post[i] == pre[i]); }
     }
 }
+
+// ---- history vocabulary (C08 / C09 / C11 / C18), written from the property statements
+spec fn id_known(m: Map<String, usize>, a: Seq<char>) -> bool {
+    exists|s: String| #![trigger m.contains_key(s)] s@ == a && m.contains_key(s)
+}
+
+spec fn id_idx(m: Map<String, usize>, a: Seq<char>) -> usize {
+    let s = choose|s: String| #![trigger m.contains_key(s)] s@ == a && m.contains_key(s);
+    m[s]
+}
+
+/// C18: a job id is superseded when one of its outputs is now produced by a present job of a
+/// different name
+spec fn superseded(jobs: Seq<NodeInfo>, id: Seq<char>) -> bool {
+    exists|i: int, p: Seq<char>| 0 <= i < jobs.len() && #[trigger] parts(jobs[i].job_id@).contains(p)
+        && parts(id).contains(p) && jobs[i].job_id@ != id
+}
+
+/// C18: which records of the input history survive (before the records of present jobs are rewritten)
+spec fn keep_key(jobs: Seq<NodeInfo>, m: Map<String, usize>, dag: &GraphType, k: Seq<char>) -> bool {
+    if str_contains_sep(k) {
+        let ab = str_split_once(k, "!!!"@).unwrap();
+        if ab.1.len() != 0 {
+            if id_known(m, ab.0) && id_known(m, ab.1) {
+                dag.has_edge(id_idx(m, ab.0), id_idx(m, ab.1))
+            } else {
+                !superseded(jobs, ab.0)
+            }
+        } else {
+            !superseded(jobs, ab.0)
+        }
+    } else {
+        !superseded(jobs, k)
+    }
+}
+
+/// the interface predicate between the abort/upstream-failure handlers and new_history:
+/// final states whose own records new_history leaves untouched (C09)
+spec fn keeps_records(s: JobState) -> bool {
+    upfailed(s)
+}
+
+spec fn same_at(a: Map<String, String>, b: Map<String, String>, k: String) -> bool {
+    a.contains_key(k) == b.contains_key(k) && (a.contains_key(k) ==> a[k] == b[k])
+}
+
+spec fn second_success(jb: NodeInfo) -> bool {
+    jb.history_output is Some || jb.state == JobState::Ephemeral(JobStateEphemeral::FinishedSkipped)
+}
+
+impl<T: PPGEvaluatorStrategy> PPGEvaluator<T> {
+    /// records of present job i after the per-job loop of new_history (C08, C09, C11)
+    spec fn job_rec_ok(&self, out1: Map<String, String>, out: Map<String, String>, i: int) -> bool {
+        let j = self.jobs@[i];
+        let ik = str_of(key_inputs(j.job_id@));
+        &&& (j.history_output is Some ==> out.contains_key(j.job_id) && out[j.job_id] == j.history_output.unwrap()
+                && out.contains_key(ik) && out[ik]@ == self.strategy.input_list(i as usize, &self.dag, self.jobs@))
+        &&& (j.history_output is None && !keeps_records(j.state) ==> !out.contains_key(j.job_id) && !out.contains_key(ik))
+        &&& (j.history_output is None && keeps_records(j.state) ==> same_at(out1, out, j.job_id) && same_at(out1, out, ik))
+    }
+
+    /// what the filter at the top of new_history leaves (C18)
+    spec fn filtered(&self, out1: Map<String, String>) -> bool {
+        &&& forall|k: String| #[trigger] out1.contains_key(k) ==> self.history@.contains_key(k) && out1[k] == self.history@[k]
+                && keep_key(self.jobs@, self.job_id_to_node_idx@, &self.dag, k@)
+        &&& forall|k: String| self.history@.contains_key(k) && !#[trigger] out1.contains_key(k)
+                ==> !keep_key(self.jobs@, self.job_id_to_node_idx@, &self.dag, k@)
+    }
+
+    spec fn not_job_key(&self, k: String, upto: int) -> bool {
+        forall|i: int| 0 <= i < upto ==> k != (#[trigger] self.jobs@[i]).job_id && k@ != key_inputs(self.jobs@[i].job_id@)
+    }
+
+    spec fn job_frame(&self, out1: Map<String, String>, out: Map<String, String>, upto: int) -> bool {
+        forall|k: String| self.not_job_key(k, upto) ==> #[trigger] same_at(out1, out, k)
+    }
+
+    spec fn edge_key(&self, a: usize, b: usize) -> Seq<char> {
+        key_edge(self.jobs@[a as int].job_id@, self.jobs@[b as int].job_id@)
+    }
+
+    /// record of present edge (a,b) after the edge loop of new_history (C08, C11)
+    spec fn edge_rec_ok(&self, out2: Map<String, String>, out: Map<String, String>, a: usize, b: usize) -> bool {
+        let ja = self.jobs@[a as int];
+        let jb = self.jobs@[b as int];
+        let ek = str_of(self.edge_key(a, b));
+        &&& (!second_success(jb) ==> same_at(out2, out, ek))
+        &&& (second_success(jb) && ja.history_output is Some ==> out.contains_key(ek) && out[ek] == ja.history_output.unwrap())
+    }
+
+    spec fn not_edge_key(&self, k: String, es: Seq<(usize, usize, &EdgeInfo)>, upto: int) -> bool {
+        forall|e: int| 0 <= e < upto ==> k@ != self.edge_key((#[trigger] es[e]).0, es[e].1)
+    }
+
+    spec fn edge_frame(&self, out2: Map<String, String>, out: Map<String, String>, es: Seq<(usize, usize, &EdgeInfo)>, upto: int) -> bool {
+        forall|k: String| self.not_edge_key(k, es, upto) ==> #[trigger] same_at(out2, out, k)
+    }
+}
+
+proof fn lemma_job_keys_distinct(jobs: Seq<NodeInfo>, m: Map<String, usize>, i: int, k: int)
+    requires ids_wf(jobs, m), 0 <= i < jobs.len(), 0 <= k < jobs.len(),
+    ensures
+        i != k ==> jobs[i].job_id != jobs[k].job_id && jobs[i].job_id@ != jobs[k].job_id@,
+        i != k ==> key_inputs(jobs[i].job_id@) != key_inputs(jobs[k].job_id@),
+        jobs[i].job_id@ != key_inputs(jobs[k].job_id@),
+        valid_id(jobs[i].job_id@), valid_id(jobs[k].job_id@),
+{
+    broadcast use group_verif_axioms;
+    assert(m.contains_key(jobs[i].job_id));
+    assert(m.contains_key(jobs[k].job_id));
+    if i != k {
+        if jobs[i].job_id@ == jobs[k].job_id@ { assert(jobs[i].job_id == jobs[k].job_id); }
+    }
+}
+
+proof fn lemma_edge_keys_distinct(jobs: Seq<NodeInfo>, m: Map<String, usize>, a: int, b: int, c: int, d: int)
+    requires ids_wf(jobs, m), 0 <= a < jobs.len(), 0 <= b < jobs.len(), 0 <= c < jobs.len(), 0 <= d < jobs.len(),
+    ensures
+        !(a == c && b == d) ==> key_edge(jobs[a].job_id@, jobs[b].job_id@) != key_edge(jobs[c].job_id@, jobs[d].job_id@),
+        key_edge(jobs[a].job_id@, jobs[b].job_id@) != jobs[c].job_id@,
+        key_edge(jobs[a].job_id@, jobs[b].job_id@) != key_inputs(jobs[c].job_id@),
+{
+    broadcast use group_verif_axioms;
+    lemma_job_keys_distinct(jobs, m, a, c);
+    lemma_job_keys_distinct(jobs, m, b, d);
+    lemma_job_keys_distinct(jobs, m, a, b);
+    lemma_job_keys_distinct(jobs, m, c, d);
+}
+
+impl<T: PPGEvaluatorStrategy> PPGEvaluator<T> {
+    spec fn ik(&self, i: int) -> String { str_of(key_inputs(self.jobs@[i].job_id@)) }
+    spec fn ek(&self, a: usize, b: usize) -> String { str_of(self.edge_key(a, b)) }
+
+    /// everything the two loops of new_history establish
+    spec fn nh_loops_done(&self, out1: Map<String, String>, out2: Map<String, String>, r: Map<String, String>,
+        es: Seq<(usize, usize, &EdgeInfo)>) -> bool {
+        &&& self.wf_core()
+        &&& self.filtered(out1)
+        &&& forall|i: int| 0 <= i < self.jobs@.len() ==> self.job_rec_ok(out1, out2, i)
+        &&& self.job_frame(out1, out2, self.jobs@.len() as int)
+        &&& all_edges_seq(&self.dag, es)
+        &&& forall|e: int| 0 <= e < es.len() ==> self.edge_rec_ok(out2, r, (#[trigger] es[e]).0, es[e].1)
+        &&& self.edge_frame(out2, r, es, es.len() as int)
+    }
+
+    /// C11: successful work is recorded faithfully (own output, current input list)
+    spec fn post_c11_own(&self, r: Map<String, String>) -> bool {
+        forall|i: int| 0 <= i < self.jobs@.len() && (#[trigger] self.jobs@[i]).history_output is Some ==>
+            r.contains_key(self.jobs@[i].job_id) && r[self.jobs@[i].job_id] == self.jobs@[i].history_output.unwrap()
+            && r.contains_key(self.ik(i)) && r[self.ik(i)]@ == self.strategy.input_list(i as usize, &self.dag, self.jobs@)
+    }
+
+    /// C11: for each direct upstream the upstream output it consumed
+    spec fn post_c11_edges(&self, r: Map<String, String>) -> bool {
+        forall|a: usize, b: usize| #![trigger self.dag.has_edge(a, b)]
+            self.dag.has_edge(a, b) && second_success(self.jobs@[b as int]) && self.jobs@[a as int].history_output is Some ==>
+            r.contains_key(self.ek(a, b)) && r[self.ek(a, b)] == self.jobs@[a as int].history_output.unwrap()
+    }
+
+    /// C08: failed / aborted work has neither an output nor an input-list record; per-dependency
+    /// records of what it last consumed are as before
+    spec fn post_c08(&self, r: Map<String, String>) -> bool {
+        &&& forall|i: int| 0 <= i < self.jobs@.len()
+                && (is_exec_failure((#[trigger] self.jobs@[i]).state) || is_aborted(self.jobs@[i].state)) ==>
+                !r.contains_key(self.jobs@[i].job_id) && !r.contains_key(self.ik(i))
+        &&& forall|u: usize, i: usize| #![trigger self.dag.has_edge(u, i)] self.dag.has_edge(u, i)
+                && (is_exec_failure(self.jobs@[i as int].state) || is_aborted(self.jobs@[i as int].state)) ==>
+                same_at(self.history@, r, self.ek(u, i))
+    }
+
+    /// C09: jobs never started because an upstream failed keep all their records unchanged
+    /// (for ids not superseded by another present job; see DESIGN on C18)
+    spec fn post_c09(&self, r: Map<String, String>) -> bool {
+        &&& forall|i: int| 0 <= i < self.jobs@.len() && keeps_records((#[trigger] self.jobs@[i]).state)
+                && self.jobs@[i].history_output is None && !superseded(self.jobs@, self.jobs@[i].job_id@) ==>
+                same_at(self.history@, r, self.jobs@[i].job_id) && same_at(self.history@, r, self.ik(i))
+        &&& forall|u: usize, i: usize| #![trigger self.dag.has_edge(u, i)] self.dag.has_edge(u, i)
+                && keeps_records(self.jobs@[i as int].state) && self.jobs@[i as int].history_output is None ==>
+                same_at(self.history@, r, self.ek(u, i))
+    }
+
+    /// C18: a per-dependency record between two present jobs that do not depend on each other is dropped
+    spec fn post_c18_nodep(&self, r: Map<String, String>) -> bool {
+        forall|a: usize, b: usize| #![trigger self.ek(a, b)] a < self.jobs@.len() && b < self.jobs@.len() && !self.dag.has_edge(a, b) ==>
+            !r.contains_key(self.ek(a, b))
+    }
+
+    spec fn is_present_key(&self, k: String) -> bool {
+        ||| exists|i: int| 0 <= i < self.jobs@.len() && (k == (#[trigger] self.jobs@[i]).job_id || k == self.ik(i))
+        ||| exists|a: usize, b: usize| #![trigger self.dag.has_edge(a, b)] self.dag.has_edge(a, b) && k == self.ek(a, b)
+    }
+
+    /// C18: every record returned either was in the input history or describes a job or dependency
+    /// of the current graph
+    spec fn post_c18_subset(&self, r: Map<String, String>) -> bool {
+        forall|k: String| #[trigger] r.contains_key(k) ==> (self.history@.contains_key(k) && r[k] == self.history@[k]) || self.is_present_key(k)
+    }
+
+    spec fn kept_unless_superseded(&self, r: Map<String, String>, k: String, owner: Seq<char>) -> bool {
+        &&& (r.contains_key(k) <==> self.history@.contains_key(k) && !superseded(self.jobs@, owner))
+        &&& (r.contains_key(k) ==> r[k] == self.history@[k])
+    }
+
+    /// C18: records of jobs absent from the current graph are returned unchanged, unless superseded
+    spec fn post_c18_absent(&self, r: Map<String, String>) -> bool {
+        &&& forall|a: Seq<char>| #![trigger str_of(a)] valid_id(a) && !id_known(self.job_id_to_node_idx@, a) ==>
+                self.kept_unless_superseded(r, str_of(a), a) && self.kept_unless_superseded(r, str_of(key_inputs(a)), a)
+        &&& forall|a: Seq<char>, b: Seq<char>| #![trigger key_edge(a, b)] valid_id(a) && valid_id(b)
+                && (!id_known(self.job_id_to_node_idx@, a) || !id_known(self.job_id_to_node_idx@, b)) ==>
+                self.kept_unless_superseded(r, str_of(key_edge(a, b)), a)
+    }
+
+    proof fn lemma_known_idx(&self, i: int)
+        requires self.wf_core(), 0 <= i < self.jobs@.len(),
+        ensures id_known(self.job_id_to_node_idx@, self.jobs@[i].job_id@),
+            id_idx(self.job_id_to_node_idx@, self.jobs@[i].job_id@) == i,
+    {
+        broadcast use group_verif_axioms;
+        let m = self.job_id_to_node_idx@;
+        assert(m.contains_key(self.jobs@[i].job_id));
+        let s = choose|s: String| #![trigger m.contains_key(s)] s@ == self.jobs@[i].job_id@ && m.contains_key(s);
+        assert(s == self.jobs@[i].job_id);
+    }
+
+    proof fn lemma_known_is_present(&self, a: Seq<char>)
+        requires self.wf_core(), id_known(self.job_id_to_node_idx@, a),
+        ensures exists|i: int| 0 <= i < self.jobs@.len() && #[trigger] self.jobs@[i].job_id@ == a,
+    {
+        let m = self.job_id_to_node_idx@;
+        let s = choose|s: String| #![trigger m.contains_key(s)] s@ == a && m.contains_key(s);
+        assert(self.jobs@[m[s] as int].job_id@ == a);
+    }
+
+    /// a key that is neither a present job's own/input key nor a present edge's key passes both loops untouched
+    proof fn lemma_untouched(&self, out1: Map<String, String>, out2: Map<String, String>, r: Map<String, String>,
+        es: Seq<(usize, usize, &EdgeInfo)>, k: String)
+        requires self.nh_loops_done(out1, out2, r, es),
+            self.not_job_key(k, self.jobs@.len() as int),
+            self.not_edge_key(k, es, es.len() as int),
+        ensures same_at(out1, r, k),
+    {
+        assert(same_at(out1, out2, k));
+        assert(same_at(out2, r, k));
+    }
+
+    proof fn lemma_job_keys_not_edge_keys(&self, es: Seq<(usize, usize, &EdgeInfo)>, i: int)
+        requires self.wf_core(), all_edges_seq(&self.dag, es), 0 <= i < self.jobs@.len(),
+        ensures self.not_edge_key(self.jobs@[i].job_id, es, es.len() as int),
+            self.not_edge_key(self.ik(i), es, es.len() as int),
+    {
+        broadcast use group_verif_axioms;
+        assert forall|e: int| 0 <= e < es.len() implies self.jobs@[i].job_id@ != self.edge_key((#[trigger] es[e]).0, es[e].1)
+            && self.ik(i)@ != self.edge_key(es[e].0, es[e].1) by {
+            assert(self.dag.has_edge(es[e].0, es[e].1));
+            lemma_edge_keys_distinct(self.jobs@, self.job_id_to_node_idx@, es[e].0 as int, es[e].1 as int, i, i);
+        }
+    }
+
+    proof fn lemma_edge_key_not_job_key(&self, a: usize, b: usize)
+        requires self.wf_core(), a < self.jobs@.len(), b < self.jobs@.len(),
+        ensures self.not_job_key(self.ek(a, b), self.jobs@.len() as int),
+    {
+        broadcast use group_verif_axioms;
+        assert forall|i: int| 0 <= i < self.jobs@.len() implies self.ek(a, b) != (#[trigger] self.jobs@[i]).job_id
+            && self.ek(a, b)@ != key_inputs(self.jobs@[i].job_id@) by {
+            lemma_edge_keys_distinct(self.jobs@, self.job_id_to_node_idx@, a as int, b as int, i, i);
+        }
+    }
+
+    /// the filter's verdict on the record of a present edge / a pair of present jobs
+    proof fn lemma_keep_edge_key(&self, a: usize, b: usize)
+        requires self.wf_core(), a < self.jobs@.len(), b < self.jobs@.len(),
+        ensures keep_key(self.jobs@, self.job_id_to_node_idx@, &self.dag, self.ek(a, b)@) == self.dag.has_edge(a, b),
+    {
+        broadcast use group_verif_axioms;
+        broadcast use group_verif_str_axioms;
+        lemma_job_keys_distinct(self.jobs@, self.job_id_to_node_idx@, a as int, b as int);
+        self.lemma_known_idx(a as int);
+        self.lemma_known_idx(b as int);
+        let k = self.ek(a, b)@;
+        assert(k == key_edge(self.jobs@[a as int].job_id@, self.jobs@[b as int].job_id@));
+        assert(str_contains_sep(k));
+        assert(str_split_once(k, "!!!"@) == Some((self.jobs@[a as int].job_id@, self.jobs@[b as int].job_id@)));
+    }
+
+    proof fn lemma_post_c11(&self, out1: Map<String, String>, out2: Map<String, String>, r: Map<String, String>,
+        es: Seq<(usize, usize, &EdgeInfo)>)
+        requires self.nh_loops_done(out1, out2, r, es),
+        ensures self.post_c11_own(r), self.post_c11_edges(r),
+    {
+        assert forall|i: int| 0 <= i < self.jobs@.len() && (#[trigger] self.jobs@[i]).history_output is Some implies
+            r.contains_key(self.jobs@[i].job_id) && r[self.jobs@[i].job_id] == self.jobs@[i].history_output.unwrap()
+            && r.contains_key(self.ik(i)) && r[self.ik(i)]@ == self.strategy.input_list(i as usize, &self.dag, self.jobs@) by {
+            assert(self.job_rec_ok(out1, out2, i));
+            self.lemma_job_keys_not_edge_keys(es, i);
+            assert(same_at(out2, r, self.jobs@[i].job_id));
+            assert(same_at(out2, r, self.ik(i)));
+        }
+        assert forall|a: usize, b: usize| #![trigger self.dag.has_edge(a, b)]
+            self.dag.has_edge(a, b) && second_success(self.jobs@[b as int]) && self.jobs@[a as int].history_output is Some implies
+            r.contains_key(self.ek(a, b)) && r[self.ek(a, b)] == self.jobs@[a as int].history_output.unwrap() by {
+            let e = choose|e: int| 0 <= e < es.len() && (#[trigger] es[e]).0 == a && es[e].1 == b;
+            assert(self.edge_rec_ok(out2, r, es[e].0, es[e].1));
+        }
+    }
+
+    proof fn lemma_post_c08_c09(&self, out1: Map<String, String>, out2: Map<String, String>, r: Map<String, String>,
+        es: Seq<(usize, usize, &EdgeInfo)>)
+        requires self.nh_loops_done(out1, out2, r, es),
+        ensures self.post_c08(r), self.post_c09(r),
+    {
+        broadcast use group_verif_axioms;
+        broadcast use group_verif_str_axioms;
+        assert forall|i: int| 0 <= i < self.jobs@.len() && (#[trigger] self.jobs@[i]).history_output is None implies
+            (!keeps_records(self.jobs@[i].state) ==> !r.contains_key(self.jobs@[i].job_id) && !r.contains_key(self.ik(i)))
+            && (keeps_records(self.jobs@[i].state) && !superseded(self.jobs@, self.jobs@[i].job_id@) ==>
+                same_at(self.history@, r, self.jobs@[i].job_id) && same_at(self.history@, r, self.ik(i))) by {
+            assert(self.job_rec_ok(out1, out2, i));
+            self.lemma_job_keys_not_edge_keys(es, i);
+            assert(same_at(out2, r, self.jobs@[i].job_id));
+            assert(same_at(out2, r, self.ik(i)));
+            lemma_job_keys_distinct(self.jobs@, self.job_id_to_node_idx@, i, i);
+            let id = self.jobs@[i].job_id@;
+            assert(!str_contains_sep(id));
+            assert(keep_key(self.jobs@, self.job_id_to_node_idx@, &self.dag, id) == !superseded(self.jobs@, id));
+            assert(str_split_once(key_inputs(id), "!!!"@) == Some((id, Seq::<char>::empty())));
+            assert(keep_key(self.jobs@, self.job_id_to_node_idx@, &self.dag, key_inputs(id)) == !superseded(self.jobs@, id));
+        }
+        assert forall|i: int| 0 <= i < self.jobs@.len() implies out_wf_one(#[trigger] self.jobs@[i]) by {}
+        assert forall|u: usize, i: usize| #![trigger self.dag.has_edge(u, i)] self.dag.has_edge(u, i)
+            && !second_success(self.jobs@[i as int]) implies same_at(self.history@, r, self.ek(u, i)) by {
+            let e = choose|e: int| 0 <= e < es.len() && (#[trigger] es[e]).0 == u && es[e].1 == i;
+            assert(self.edge_rec_ok(out2, r, es[e].0, es[e].1));
+            self.lemma_edge_key_not_job_key(u, i);
+            assert(same_at(out1, out2, self.ek(u, i)));
+            self.lemma_keep_edge_key(u, i);
+        }
+        assert forall|i: int| 0 <= i < self.jobs@.len() && (is_exec_failure((#[trigger] self.jobs@[i]).state) || is_aborted(self.jobs@[i].state))
+            implies self.jobs@[i].history_output is None && !second_success(self.jobs@[i]) && !keeps_records(self.jobs@[i].state) by {
+            assert(out_wf_one(self.jobs@[i]));
+        }
+        assert forall|u: usize, i: usize| #![trigger self.dag.has_edge(u, i)] self.dag.has_edge(u, i)
+            && (is_exec_failure(self.jobs@[i as int].state) || is_aborted(self.jobs@[i as int].state)) implies
+            same_at(self.history@, r, self.ek(u, i)) by {
+            assert(out_wf_one(self.jobs@[i as int]));
+        }
+        assert forall|u: usize, i: usize| #![trigger self.dag.has_edge(u, i)] self.dag.has_edge(u, i)
+            && keeps_records(self.jobs@[i as int].state) && self.jobs@[i as int].history_output is None implies
+            same_at(self.history@, r, self.ek(u, i)) by {
+            assert(!second_success(self.jobs@[i as int]));
+        }
+    }
+
+    proof fn lemma_post_c18(&self, out1: Map<String, String>, out2: Map<String, String>, r: Map<String, String>,
+        es: Seq<(usize, usize, &EdgeInfo)>)
+        requires self.nh_loops_done(out1, out2, r, es),
+        ensures self.post_c18_nodep(r), self.post_c18_subset(r), self.post_c18_absent(r),
+    {
+        broadcast use group_verif_axioms;
+        broadcast use group_verif_str_axioms;
+        let n = self.jobs@.len() as int;
+        let m = self.job_id_to_node_idx@;
+        // --- nodep
+        assert forall|a: usize, b: usize| #![trigger self.ek(a, b)] a < n && b < n && !self.dag.has_edge(a, b) implies
+            !r.contains_key(self.ek(a, b)) by {
+            self.lemma_edge_key_not_job_key(a, b);
+            assert(self.not_edge_key(self.ek(a, b), es, es.len() as int)) by {
+                assert forall|e: int| 0 <= e < es.len() implies self.ek(a, b)@ != self.edge_key((#[trigger] es[e]).0, es[e].1) by {
+                    assert(self.dag.has_edge(es[e].0, es[e].1));
+                    lemma_edge_keys_distinct(self.jobs@, m, a as int, b as int, es[e].0 as int, es[e].1 as int);
+                }
+            }
+            self.lemma_untouched(out1, out2, r, es, self.ek(a, b));
+            self.lemma_keep_edge_key(a, b);
+        }
+        // --- subset
+        assert forall|k: String| #[trigger] r.contains_key(k) implies
+            (self.history@.contains_key(k) && r[k] == self.history@[k]) || self.is_present_key(k) by {
+            if !self.is_present_key(k) {
+                assert(self.not_job_key(k, n)) by {
+                    assert forall|i: int| 0 <= i < n implies k != (#[trigger] self.jobs@[i]).job_id && k@ != key_inputs(self.jobs@[i].job_id@) by {
+                        if k@ == key_inputs(self.jobs@[i].job_id@) { assert(k == self.ik(i)); }
+                    }
+                }
+                assert(self.not_edge_key(k, es, es.len() as int)) by {
+                    assert forall|e: int| 0 <= e < es.len() implies k@ != self.edge_key((#[trigger] es[e]).0, es[e].1) by {
+                        assert(self.dag.has_edge(es[e].0, es[e].1));
+                        if k@ == self.edge_key(es[e].0, es[e].1) { assert(k == self.ek(es[e].0, es[e].1)); }
+                    }
+                }
+                self.lemma_untouched(out1, out2, r, es, k);
+            }
+        }
+        // --- absent
+        assert forall|a: Seq<char>| #![trigger str_of(a)] valid_id(a) && !id_known(m, a) implies
+            self.kept_unless_superseded(r, str_of(a), a) && self.kept_unless_superseded(r, str_of(key_inputs(a)), a) by {
+            let k1 = str_of(a);
+            let k2 = str_of(key_inputs(a));
+            assert forall|i: int| 0 <= i < n implies (#[trigger] self.jobs@[i]).job_id@ != a by {
+                if self.jobs@[i].job_id@ == a { assert(m.contains_key(self.jobs@[i].job_id)); }
+            }
+            assert(self.not_job_key(k1, n) && self.not_job_key(k2, n)) by {
+                assert forall|i: int| 0 <= i < n implies k1 != (#[trigger] self.jobs@[i]).job_id && k1@ != key_inputs(self.jobs@[i].job_id@)
+                    && k2 != self.jobs@[i].job_id && k2@ != key_inputs(self.jobs@[i].job_id@) by {
+                    lemma_job_keys_distinct(self.jobs@, m, i, i);
+                }
+            }
+            assert(self.not_edge_key(k1, es, es.len() as int) && self.not_edge_key(k2, es, es.len() as int)) by {
+                assert forall|e: int| 0 <= e < es.len() implies k1@ != self.edge_key((#[trigger] es[e]).0, es[e].1)
+                    && k2@ != self.edge_key(es[e].0, es[e].1) by {
+                    assert(self.dag.has_edge(es[e].0, es[e].1));
+                    lemma_job_keys_distinct(self.jobs@, m, es[e].0 as int, es[e].1 as int);
+                }
+            }
+            self.lemma_untouched(out1, out2, r, es, k1);
+            self.lemma_untouched(out1, out2, r, es, k2);
+            assert(str_split_once(key_inputs(a), "!!!"@) == Some((a, Seq::<char>::empty())));
+        }
+        assert forall|a: Seq<char>, b: Seq<char>| #![trigger key_edge(a, b)] valid_id(a) && valid_id(b)
+            && (!id_known(m, a) || !id_known(m, b)) implies
+            self.kept_unless_superseded(r, str_of(key_edge(a, b)), a) by {
+            let k = str_of(key_edge(a, b));
+            assert(self.not_job_key(k, n)) by {
+                assert forall|i: int| 0 <= i < n implies k != (#[trigger] self.jobs@[i]).job_id && k@ != key_inputs(self.jobs@[i].job_id@) by {
+                    lemma_job_keys_distinct(self.jobs@, m, i, i);
+                }
+            }
+            assert(self.not_edge_key(k, es, es.len() as int)) by {
+                assert forall|e: int| 0 <= e < es.len() implies k@ != self.edge_key((#[trigger] es[e]).0, es[e].1) by {
+                    assert(self.dag.has_edge(es[e].0, es[e].1));
+                    lemma_job_keys_distinct(self.jobs@, m, es[e].0 as int, es[e].1 as int);
+                    if k@ == self.edge_key(es[e].0, es[e].1) {
+                        self.lemma_known_idx(es[e].0 as int);
+                        self.lemma_known_idx(es[e].1 as int);
+                    }
+                }
+            }
+            self.lemma_untouched(out1, out2, r, es, k);
+            assert(str_split_once(key_edge(a, b), "!!!"@) == Some((a, b)));
+        }
+    }
+}
